@@ -121,6 +121,7 @@ static void host_cb(void *arg, int status, int, struct hostent *h) {
 }
 
 // ------------------------------------------------------------------ C15
+static bool csv_entries_independent(const std::string &csv, bool ports, Verdict &v);
 static bool run_c15(const Case &c, Verdict &v, bool &nontrivial) {
   set_env(c);
   std::vector<std::string> twin = with_junk(c);
@@ -173,7 +174,7 @@ static bool run_c15(const Case &c, Verdict &v, bool &nontrivial) {
     int st = 0; ares_channel_t *ch = init_from("", "", nullptr, st); if (!ch) return failv(v, "C15.init-failed", ares_strerror(st));
     std::string s = c.str; nontrivial = !s.empty(); int rc = 0;
     if (c.kind == "sortlist") { if (s.size() & 1) ares_set_sortlist(ch, "10.0.0.0/8 172.16.0.0/255.240.0.0"); Snap before = snapshot(ch); rc = ares_set_sortlist(ch, s.c_str()); if (rc != ARES_SUCCESS) { Snap after = snapshot(ch); std::string d = diff(before, after); if (!d.empty()) { ares_destroy(ch); return failv(v, "C15.failed-setter-changed-configuration", d); } } stats().count(rc == ARES_SUCCESS ? "c15.sortlist_accepted" : "c15.sortlist_rejected"); }
-    else if (c.kind == "csv") { Snap before = snapshot(ch); rc = (s.size() & 1) ? ares_set_servers_ports_csv(ch, s.c_str()) : ares_set_servers_csv(ch, s.c_str()); Snap after = snapshot(ch); if (rc != ARES_SUCCESS) { std::string d = diff(before, after); if (!d.empty()) { ares_destroy(ch); return failv(v, "C15.failed-setter-changed-configuration", d); } } stats().count(rc == ARES_SUCCESS ? "c15.csv_accepted" : "c15.csv_rejected"); }
+    else if (c.kind == "csv") { Snap before = snapshot(ch); rc = (s.size() & 1) ? ares_set_servers_ports_csv(ch, s.c_str()) : ares_set_servers_csv(ch, s.c_str()); Snap after = snapshot(ch); if (rc != ARES_SUCCESS) { std::string d = diff(before, after); if (!d.empty()) { ares_destroy(ch); return failv(v, "C15.failed-setter-changed-configuration", d); } } stats().count(rc == ARES_SUCCESS ? "c15.csv_accepted" : "c15.csv_rejected"); if (rc == ARES_SUCCESS && !csv_entries_independent(s, (s.size() & 1) != 0, v)) { ares_destroy(ch); return false; } }
     else { ares_sysconfig_t sc; memset(&sc, 0, sizeof sc); rc = ares_sysconfig_set_options(&sc, s.c_str()); if (rc != ARES_SUCCESS && rc != ARES_ENOMEM) { ares_destroy(ch); return failv(v, "C15.options-string-error", ares_strerror(rc)); } stats().count("c15.options_strings"); }
     bool rok = ranges_ok(ch, v, c.kind == "csv"); ares_destroy(ch); return rok;   // (an empty list given to the setter legitimately clears the servers)
   }
@@ -270,6 +271,20 @@ static bool stup_list(const std::string &csv, unsigned defu, unsigned deft, std:
     { unsigned ix = 0; if (!t.iface.empty() && stup_num(t.iface, ix)) { if (ix < 1 || ix >= sizeof kIfaces / sizeof *kIfaces) return false; t.iface = kIfaces[ix]; } else if (!t.iface.empty() && !vi_n2i(t.iface.c_str(), nullptr)) return false; }
     if (!t.up) t.up = defu ? defu : 53; if (!t.tp) t.tp = deft ? deft : 53;
     bool dup = false; for (auto &x : out) if (x.ip == t.ip && x.up == t.up && x.tp == t.tp) dup = true; if (!dup) out.push_back(t); }
+  return true;
+}
+// C15, server lists: what an entry means does not depend on its neighbours.  The list as a whole must configure what its entries configure one
+// by one (in order, an exact duplicate once); in particular an entry that is ignored on its own is ignored in company.
+static bool csv_entries_independent(const std::string &csv, bool ports, Verdict &v) {
+  std::vector<std::string> items; { std::string cur; for (char ch : csv) { if (ch == ',' || ch == ' ') { if (!cur.empty()) items.push_back(cur); cur.clear(); } else cur += ch; } if (!cur.empty()) items.push_back(cur); }
+  if (items.size() < 2 || items.size() > 8) return true;
+  auto apply = [&](const std::string &l, std::vector<STup> &out, int &rc) -> bool { int st = 0; ares_channel_t *t = init_from("", "", nullptr, st); if (!t) return false; rc = ports ? ares_set_servers_ports_csv(t, l.c_str()) : ares_set_servers_csv(t, l.c_str()); bool ok = false; if (rc == ARES_SUCCESS) { char *g = ares_get_servers_csv(t); ok = stup_list(g ? g : "", 0, 0, out); ares_free_string(g); } ares_destroy(t); return ok; };
+  std::vector<STup> whole; int rcw = 0; if (!apply(csv, whole, rcw)) return true;
+  std::vector<STup> sum;
+  for (auto &it : items) { std::vector<STup> one; int rc1 = 0; if (!apply(it, one, rc1)) { if (rc1 != ARES_SUCCESS && rc1 != ARES_ENOMEM) return failv(v, "C15.server-entry-accepted-only-in-company", "'" + it + "' alone is refused (" + ares_strerror(rc1) + ") but the list '" + csv + "' is accepted"); return true; }
+    for (auto &t : one) { bool dup = false; for (auto &x : sum) if (x.ip == t.ip && x.up == t.up && x.tp == t.tp) dup = true; if (!dup) sum.push_back(t); } }
+  if (!(sum == whole)) return failv(v, "C15.server-entry-depends-on-its-neighbours", "'" + csv + "' configures " + stup_str(whole) + " but its entries one by one configure " + stup_str(sum));
+  stats().count("c15.csv_entry_independence_checked");
   return true;
 }
 // canonical form of a server list as the library prints it (through a scratch channel)
@@ -393,7 +408,7 @@ static std::string gen_junk_resolv(Chooser &c, unsigned &kind) {
   if (kind == 1) return std::string(c.chance(1, 2) ? "#" : ";") + (c.chance(1, 2) ? " nameserver 9.9.9.9" : gen_junk_token(c));
   if (kind == 2) { std::string t = gen_junk_token(c); while (!t.empty() && (t[0] == ' ' || t[0] == '\t' || t[0] == '\r')) t.erase(0, 1); static const char *known[] = {"nameserver", "search", "domain", "options", "sortlist", "lookup", "hostresorder"}; for (auto k : known) if (t.compare(0, strlen(k), k) == 0) t = "x" + t; return t.empty() ? "??" : t; }
   static const char *bad[] = {"options timeout:0", "options attempts:0", "options retry:0", "options retrans:0", "options timeout:abc", "options bogus:1", "options :", "options timeout:", "options ::::", "nameserver 300.1.1.1", "nameserver fe80::1", "nameserver", "nameserver  ", "nameserver [1.2.3.4", "nameserver example.test",
-                              "sortlist x/99", "sortlist 1.2.3.4/99", "sortlist 999.1.1.1", "search", "domain", "options", "lookup nonsense", "lookup", "sortlist 1.2.3.4/255.255.0.0.0", "options ndots", "options ndots:abc", "options ndots:-1", "options timeout:99999999999999999999", "nameserver 1.2.3.4:70000", "options attempts:abc", "sortlist ;", "sortlist ; ;  ;", "search ,", "search , ,,", "domain ,", "lookup ,", "options ,"};
+                              "sortlist x/99", "sortlist 1.2.3.4/99", "sortlist 999.1.1.1", "search", "domain", "options", "lookup nonsense", "lookup", "sortlist 1.2.3.4/255.255.0.0.0", "options ndots", "options ndots:abc", "options ndots:-1", "options timeout:99999999999999999999", "nameserver 1.2.3.4:70000", "options attempts:abc", "sortlist ;", "sortlist ; ;  ;", "search ,", "search , ,,", "domain ,", "lookup ,", "options ,", "nameserver dns://1.2.3.4:99999", "nameserver dns://1.2.3.4:65536", "nameserver [1.2.3.4]:65536", "nameserver dns://[2001:db8::1]:70000?tcpport=53", "nameserver dns://1.2.3.4:53?tcpport=65536"};
   return bad[c.pick(sizeof bad / sizeof *bad)];
 }
 static std::string gen_case(const std::string &prop, const std::string &kind, const unsigned char *data, size_t size) {
@@ -422,7 +437,7 @@ static std::string gen_case(const std::string &prop, const std::string &kind, co
       std::string s; unsigned k = c.pick(4);
       if (k == 0) s = gen_junk_token(c);
       else if (kind == "sortlist") { unsigned n = 1 + c.pick(4); for (unsigned i = 0; i < n; i++) { s += (i ? " " : "") + gen_ip(c); if (c.chance(2, 3)) s += "/" + (c.chance(1, 4) ? std::to_string(c.pick(200)) : (c.chance(1, 2) ? std::to_string(c.pick(33)) : std::string("255.255.255.0"))); } if (k == 3) s += gen_junk_token(c); }
-      else if (kind == "csv") { unsigned n = 1 + c.pick(4); for (unsigned i = 0; i < n; i++) { std::string ip = gen_ip(c); unsigned f = c.pick(5); if (f == 0) s += ip; else if (f == 1) s += "[" + ip + "]:" + std::to_string(c.pick(70000)); else if (f == 2) s += "dns://" + (ip.find(':') != std::string::npos ? "[" + ip + "]" : ip) + ":" + std::to_string(1 + c.pick(65535)) + "?tcpport=" + std::to_string(1 + c.pick(65535)); else if (f == 3) s += ip + "%eth" + std::to_string(c.pick(3)); else s += ip + ":" + std::to_string(c.pick(70000)); s += (i + 1 < n) ? "," : ""; } if (k == 3) s += gen_junk_token(c); }
+      else if (kind == "csv") { unsigned n = 1 + c.pick(4); for (unsigned i = 0; i < n; i++) { std::string ip = gen_ip(c); unsigned f = c.pick(5); if (f == 0) s += ip; else if (f == 1) s += "[" + ip + "]:" + std::to_string(c.pick(70000)); else if (f == 2) s += "dns://" + (ip.find(':') != std::string::npos ? "[" + ip + "]" : ip) + ":" + std::to_string(1 + c.pick(65535)) + "?tcpport=" + std::to_string(1 + c.pick(65535)); else if (f == 3) { unsigned g = c.pick(5); std::string ll = "fe80::" + std::to_string(1 + c.pick(9)); if (g == 0) s += ip + "%eth" + std::to_string(c.pick(3)); else if (g == 1) s += ll + "%lo"; else if (g == 2) s += "[" + ll + "]:53%lo"; else if (g == 3) s += "dns://[" + ll + "]:53"; else s += ll; } else s += ip + ":" + std::to_string(c.pick(70000)); s += (i + 1 < n) ? "," : ""; } if (k == 3) s += gen_junk_token(c); }
       else { unsigned n = 1 + c.pick(5); for (unsigned i = 0; i < n; i++) { static const char *ks[] = {"ndots", "timeout", "attempts", "rotate", "retrans", "retry", "use-vc", "bogus", ""}; s += std::string(i ? " " : "") + ks[c.pick(9)]; if (c.chance(2, 3)) s += ":" + (c.chance(1, 4) ? gen_junk_token(c).substr(0, 6) : std::to_string(c.chance(1, 4) ? 0 : c.pick(40))); } }
       for (auto &ch : s) if (ch == '\0') ch = '?';
       o += "s " + hexs(s) + "\n";
